@@ -6,6 +6,7 @@ use core::cmp::Ordering;
 use vstd::std_specs::cmp::*;
 use std::sync::Arc;
 use std::io;
+use std::cmp;
 use std::io::{ErrorKind, SeekFrom};
 use std::num::TryFromIntError;
 use std::convert::{TryFrom, TryInto};
